@@ -968,7 +968,7 @@ fn gen_cases_tls(o: &Opts) -> Vec<(&'static str, Case, Vec<String>)> {
         let keep = match group {
             "key-length" => i < 131 || (o.thorough && i % 3 == 0) || i >= 262,
             "key-base64" => i < 10 * mul || tags.iter().any(|t| t == "key:rfc6455"),
-            "subset-grid" => tags.iter().any(|t| t == "wrong-elements:0" || t == "wrong-elements:1") || i % (20 / mul) == 7,
+            "subset-grid" => tags.iter().any(|t| t == "wrong-elements:0" || t == "wrong-elements:1") || i % (20 / mul) == 3,
             "spelling" => i < 60 * mul,
             "payload" => true,
             _ => true,
